@@ -1,8 +1,40 @@
-/- Driver ops for C06 (none yet). -/
+/- Driver ops for C06: the size skeleton of `_build_tree`. -/
 import Xrfmv.Drv.Common
+import Xrfmv.Model.BuildSizes
+
+open Lean Xrfmv.Drv
 
 namespace Xrfmv.Drv.C06
+open Xrfmv.BuildSizes
 
-def ops : List (String × Handler) := []
+partial def treeJson : STree → Json
+  | .leaf n => Json.mkObj [("leaf", toJson n)]
+  | .node n l r => Json.mkObj [("node", toJson n), ("l", treeJson l), ("r", treeJson r)]
+  | .assertFail n => Json.mkObj [("fail", toJson n)]
+  | .outOfFuel n => Json.mkObj [("fuel", toJson n)]
+
+/-- `{"op":"buildsizes","L":..,"ns":null|k,"n":..,"ov":[r_0,…,r_n]}` (`ov[m] = int(round(2*f*m))` as Python computed it). -/
+def opBuildSizes : Handler := fun j => do
+  let L ← j.getObjValAs? Nat "L"
+  let n ← j.getObjValAs? Nat "n"
+  let ov ← j.getObjValAs? (Array Int) "ov"
+  if ov.size < n + 1 then throw "bad-op: overlap table shorter than n+1"
+  let ns : Option Nat := match j.getObjValAs? Nat "ns" with
+    | .ok k => some k
+    | .error _ => none
+  let cfg : Cfg := { maxLeaf := L, nsplits := ns, ov := fun m => ov.getD m 0 }
+  let (t, c) := build cfg (n + 1 + (ns.getD 0)) n 0
+  pure <| Json.mkObj [("tree", treeJson t), ("count", toJson c), ("ok", toJson t.ok),
+    ("depth", toJson t.depth), ("splits", toJson t.splits), ("leaves", toJson t.leaves)]
+
+/-- `{"op":"splitsizes","n":..,"r":..}` → the two child sizes and the counts. -/
+def opSplitSizes : Handler := fun j => do
+  let n ← j.getObjValAs? Int "n"
+  let r ← j.getObjValAs? Int "r"
+  let c := Gen.Split.counts n r
+  pure <| Json.mkObj [("left", toJson (leftSize n r)), ("right", toJson (rightSize n r)),
+    ("overlap", toJson c.overlapCount), ("leftUnique", toJson c.leftUnique), ("rightUnique", toJson c.rightUnique)]
+
+def ops : List (String × Handler) := [("buildsizes", opBuildSizes), ("splitsizes", opSplitSizes)]
 
 end Xrfmv.Drv.C06
